@@ -168,7 +168,7 @@ func TestVfC12Edns(t *testing.T) {
 			closer = c.Close
 		}
 		defer closer()
-		outcome := rapid.SampledFrom([]string{"reply", "reply", "reply", "rcode", "refused", "servfail"}).Draw(t, "outcome")
+		outcome := rapid.SampledFrom([]string{"reply", "reply", "reply", "rcode", "refused", "servfail", "notimp"}).Draw(t, "outcome")
 		label := fmt.Sprintf("q%dp%d", seq, os.Getpid())
 		var name vfkit.Name
 		switch outcome {
@@ -198,6 +198,9 @@ func TestVfC12Edns(t *testing.T) {
 		clientOpts := false
 		mkQuery := func(id uint16, withOPT bool) []byte {
 			m := &vfkit.Msg{ID: id, Bits: vfkit.BitRD, Q: []vfkit.Question{{Name: name, Type: qtype, Class: 1}}}
+			if outcome == "notimp" {
+				m.Bits = 0 // RD=0: unsupported
+			}
 			if withOPT {
 				o := vfkit.RR{Type: 41, Class: rapid.SampledFrom([]uint16{0, 512, 1232, 4096, 65535}).Draw(t, "cSize"), TTL: rapid.SampledFrom([]uint32{0, 0x8000, 0x00010000, 0x05000000}).Draw(t, "cTTL"),
 					RData: []vfkit.RDPart{{Raw: c12Options(t, 'C')}}}
@@ -243,7 +246,12 @@ func TestVfC12Edns(t *testing.T) {
 			if !withOPT && nOPT != 0 {
 				t.Fatalf("response to a query without OPT contains %d OPT records (rcode %d); %s", nOPT, r.Msg.Rcode(), desc)
 			}
-			if withOPT {
+			if withOPT && outcome == "notimp" {
+				// an unsupported query with an OPT may get none or one (the statement leaves that open)
+				if nOPT > 1 {
+					t.Fatalf("%d OPT records in a NOTIMP response; %s", nOPT, desc)
+				}
+			} else if withOPT {
 				if nOPT != 1 {
 					t.Fatalf("response to a supported query with OPT contains %d OPT records (rcode %d); %s", nOPT, r.Msg.Rcode(), desc)
 				}
@@ -261,7 +269,7 @@ func TestVfC12Edns(t *testing.T) {
 			if bytes.Contains(r.Raw, c12Marker) {
 				t.Fatalf("option octets of the client or the upstream appear in the response %s; %s", vfkit.Hex(r.Raw), desc)
 			}
-			wantRcode := map[string]int{"reply": 0, "rcode": int(sc.rcode), "refused": 5, "servfail": 2}[outcome]
+			wantRcode := map[string]int{"reply": 0, "rcode": int(sc.rcode), "refused": 5, "servfail": 2, "notimp": 4}[outcome]
 			if r.Msg.Rcode() != wantRcode {
 				t.Fatalf("rcode %d, expected %d; %s", r.Msg.Rcode(), wantRcode, desc)
 			}
@@ -308,7 +316,7 @@ func TestVfC12Edns(t *testing.T) {
 			if mine < 1 {
 				t.Fatalf("no upstream query seen for %s", name)
 			}
-		} else if outcome == "refused" && mine != 0 {
+		} else if (outcome == "refused" || outcome == "notimp") && mine != 0 {
 			t.Fatalf("upstream contacted for an unrouted name")
 		}
 		beyond := false
